@@ -92,6 +92,12 @@ def handle (line : String) : String :=
         | some (.ok ts) => joinWith " | " ("ok" :: ts.map fun t => michToLine (tyToMich t))
         | some .failed => "failed"
         | none => "ill-typed"
+      -- which typing accepts the program: `strict` (`typeInstr true`: the hypotheses of C01.strict_run_eq_reference are
+      -- static and hold), `lax` (typed, but some MAP body changes the element type), `ill-typed`
+      else if cmd == "stype" then
+        (if !Typing.literalsOk i then "ill-typed"
+         else if (Typing.typeInstr true i []).isSome then "strict"
+         else if (Typing.typeInstr false i []).isSome then "lax" else "ill-typed")
       else "bad-op"
     | _, _, _ => "bad-op"
   | _ => "bad-op"
